@@ -307,9 +307,22 @@ func (w *world) attempts(sp spelling, depth int) []attempt {
 	add("copy-source-bucket", "CopyObject", cs(upW+canaryFile), named, "copied-by-c04", false)
 	add("copy-source-bucket", "CopyObject-slash", cs("/"+upW+canaryFile), named, "copied-by-c04", false)
 	add("copy-source-other-bucket", "CopyObject", cs(named+"/"+sp.wire+victim+"/"+canaryFile), named, "copied-by-c04", false)
-	add("copy-source-versionId", "CopyObject", cs(named+"/top.txt?versionId="+fileT), named, "copied-by-c04", false)
-	add("copy-source-key", "UploadPartCopy", &s3c.Req{Method: "PUT", Path: nb + "mpu/key", Query: s3c.Q("partNumber", "2", "uploadId", w.uploadID),
-		Header: s3c.H{{"X-Amz-Copy-Source", named + "/" + fileW}}}, named, "mpu/key", false)
+	upc := func(src string) *s3c.Req {
+		return &s3c.Req{Method: "PUT", Path: nb + "mpu/key", Query: s3c.Q("partNumber", "2", "uploadId", w.uploadID), Header: s3c.H{{"X-Amz-Copy-Source", src}}}
+	}
+	add("copy-source-key", "UploadPartCopy", upc(named+"/"+fileW), named, "mpu/key", false)
+	add("copy-source-key", "UploadPartCopy-text", upc(named+"/"+fileT), named, "mpu/key", false)
+	add("copy-source-bucket", "UploadPartCopy", upc(upW+canaryFile), named, "mpu/key", false)
+	add("copy-source-other-bucket", "UploadPartCopy", upc(named+"/"+sp.wire+victim+"/"+canaryFile), named, "mpu/key", false)
+	// version ids are resolved four directories below <versions>/<bucket> (hashed key path): go deeper too.
+	// The header value is url-decoded once by the gateway, so both spellings are sent.
+	deepW, deepT := strings.Repeat(sp.wire, depth+4), strings.Repeat(sp.text, depth+4)
+	for _, src := range []string{"seed/versioned", "top.txt"} {
+		for _, v := range []string{fileT, fileW, deepT + canaryFile, deepW + canaryFile, deepT + victim + "/" + canaryFile} {
+			add("copy-source-versionId", "CopyObject", cs(named+"/"+src+"?versionId="+v), named, "copied-by-c04", false)
+			add("copy-source-versionId", "UploadPartCopy", upc(named+"/"+src+"?versionId="+v), named, "mpu/key", false)
+		}
+	}
 	// --- listing parameters
 	for _, p := range []string{"prefix", "marker", "start-after", "continuation-token", "delimiter"} {
 		for _, v := range []string{upT, dirT + "/", upT + victim + "/"} {
@@ -324,7 +337,7 @@ func (w *world) attempts(sp spelling, depth int) []attempt {
 		add("list-"+p, "ListMultipartUploads", &s3c.Req{Method: "GET", Path: "/" + named, Query: "uploads=&" + s3c.Q(p, upT)}, named, "", true)
 	}
 	// --- versionId
-	for _, v := range []string{fileT, dirT + "/inner.txt", upT + victim + "/vobj"} {
+	for _, v := range []string{fileT, dirT + "/inner.txt", upT + victim + "/vobj", strings.Repeat(sp.text, depth+4) + canaryFile} {
 		add("versionId", "GetObject", &s3c.Req{Method: "GET", Path: nb + "seed/versioned", Query: s3c.Q("versionId", v)}, named, "seed/versioned", true)
 		add("versionId", "HeadObject", &s3c.Req{Method: "HEAD", Path: nb + "seed/versioned", Query: s3c.Q("versionId", v)}, named, "seed/versioned", true)
 		add("versionId", "DeleteObject", &s3c.Req{Method: "DELETE", Path: nb + "seed/versioned", Query: s3c.Q("versionId", v)}, named, "seed/versioned", false)
@@ -426,6 +439,37 @@ func (w *world) run(id string, a attempt, who string, spName string, depth int) 
 			lit := "L1/L2/root/" + named + "/" + a.literalKey
 			if rel != lit && !(strings.HasPrefix(lit, rel+"/")) {
 				sibling = append(sibling, d)
+			}
+		}
+	}
+	// (1b) data flow: nothing the request stored inside the named bucket may hold content from elsewhere
+	// (a copy whose source resolved outside the bucket it names)
+	for _, d := range snap.Diff(before, after) {
+		if d[0] == '-' {
+			continue
+		}
+		rel := strings.Fields(d)[1]
+		if !inNamed(rel, a.namedBucket) {
+			continue
+		}
+		full := filepath.Join(w.jail, rel)
+		if fi, err := os.Lstat(full); err != nil || !fi.Mode().IsRegular() || fi.Size() > 1<<20 {
+			continue
+		}
+		data, err := os.ReadFile(full)
+		if err != nil {
+			continue
+		}
+		for content, where := range w.canaries {
+			if strings.Contains(string(data), content) {
+				det["copied_into"] = rel
+				det["copied_from"] = where
+				loc := "inside-root"
+				if !strings.HasPrefix(where, "victim") && where != "gateway-root" && !strings.HasPrefix(where, "gateway-root/") {
+					loc = "outside-root"
+				}
+				c.Violation(sigBase+":foreign-data-stored-in-bucket:"+loc, id, det)
+				break
 			}
 		}
 	}
@@ -579,7 +623,7 @@ func lane(c *ev.Ctx, name string, cfg gw.Config, depths []int, sps []spelling) {
 func Run(c *ev.Ctx) int {
 	c.Assume("the gateway runs as throw-away uid 4242 in a scratch jail; canaries are owned by that uid on purpose so that a confinement bug shows instead of being masked by EPERM")
 	c.Assume("callers: the non-admin owner of the named bucket, and root; a request counts as non-trivial only if it got past signature/URI checks")
-	depths := []int{1, 2, 4}
+	depths := []int{1, 2, 4, 6}
 	sps := []spelling{}
 	for _, s := range spellings {
 		if c.Thorough() || quickSpellings[s.name] {
